@@ -1,8 +1,10 @@
 // package-dir: pkg/engine
 // property: C11
 // bound: quick: every directed graph without self loops, one relation, on 4 nodes (4096 edge sets), every
-//        root, maxDepth 1..3 (49,152 extractions); thorough (VERIF_TIER=thorough): in addition every
-//        graph on 6 nodes with at most 6 edges (768,212 edge sets), every root, maxDepth 2..3
+//        root, maxDepth 1..3 (49,152 extractions), plus every graph on 6 nodes with at most 6 edges
+//        (768,212 edge sets) for the root n0 and maxDepth 3 (every other root of such a graph is the root n0
+//        of a relabelled graph of the same family); thorough (VERIF_TIER=thorough): the 4-node family and
+//        every graph on 6 nodes with at most 6 edges, every root, maxDepth 2..3
 // rule: each (graph, root, maxDepth) is run once against the real VExtractSubgraph (no guide query, time
 //        "now"); the set of node ids it returns must equal the set of nodes within maxDepth hops of the
 //        root when edges are followed in both directions (reference breadth-first search);
@@ -35,7 +37,7 @@ func TestGovcBounded(t *testing.T) {
 	}
 	defer eng.Close()
 	explored, violations, nontrivial, samples := 0, 0, 0, 0
-	run := func(n int, maxEdges int, depths []int, prefix string) {
+	run := func(n int, maxEdges int, roots int, depths []int, prefix string) {
 		type pair struct{ a, b int }
 		var slots []pair
 		for a := 0; a < n; a++ {
@@ -58,7 +60,7 @@ func TestGovcBounded(t *testing.T) {
 					eng.DB.AddEdge(buildGraphID("idx", name(s.a)), buildGraphID("idx", name(s.b)), "r", 1, nil, 1)
 				}
 			}
-			for root := 0; root < n; root++ {
+			for root := 0; root < roots; root++ {
 				d := make([]int, n)
 				for i := range d {
 					d[i] = -1
@@ -129,9 +131,11 @@ func TestGovcBounded(t *testing.T) {
 			}
 		}
 	}
-	run(4, 0, []int{1, 2, 3}, "s")
+	run(4, 0, 4, []int{1, 2, 3}, "s")
 	if os.Getenv("VERIF_TIER") == "thorough" {
-		run(6, 6, []int{2, 3}, "u")
+		run(6, 6, 6, []int{2, 3}, "u")
+	} else {
+		run(6, 6, 1, []int{3}, "q")
 	}
 	fmt.Printf("GOVC-BOUNDED-DONE explored=%d nontrivial=%d violations=%d\n", explored, nontrivial, violations)
 }
